@@ -70,7 +70,7 @@ var c16IDs = []string{"id", "pod.YAML", "x.JSON", "a/b.Yaml", "y.jSON", "../../e
 
 func checkC16(c *Ctx) {
 	c.Rule = "valid Specs (vendors/classes with dots, classes ending in .json/.yaml) x transient ids (with '/', '..', '.', leading dots, extensions, blanks, line breaks; catalogue + G-STR) x all four name generators x suffix {none,.json,.yaml} x directory lists of 1-3 entries whose last one is populated, empty, missing or missing two levels deep, with decoy files in parents, siblings and the lower-priority directories defining the same devices (also conflicting there); manual and auto-refresh caches; oracles: name is one path component; tree-snapshot diff after WriteSpec = exactly the expected file (+ directories that had to be created); encoding by extension; after Refresh the devices resolve to that file with the last directory's priority; RemoveSpec diff = exactly that file; second RemoveSpec = nil; distinct_nontrivial = distinct (generator, id shape, suffix, directory-list shape, mode)"
-	c.Assume("transient ids contain no NUL byte and are <=200 bytes", "the last configured directory holds no other file defining the same devices (a same-directory conflict is not 'another directory')")
+	c.Assume("transient ids contain no NUL byte; generated file names are at most 255 bytes (NAME_MAX)", "the last configured directory holds no other file defining the same devices (a same-directory conflict is not 'another directory')")
 	c.RunCases("gen", c.pick(800, 30000), 0, func(cs *Case) { c16Case(cs, false) })
 	c.RunCases("auto", c.pick(80, 1500), 4, func(cs *Case) { c16Case(cs, true) })
 	c.Floor("id_with_slash", 8)
@@ -78,6 +78,7 @@ func checkC16(c *Ctx) {
 	c.Floor("id_with_extension", 8)
 	c.Floor("name_with_extension_in_other_case", 5)
 	c.Floor("last_dir_missing", 8)
+	c.Floor("names_of_236_to_255_bytes", 8)
 	c.Floor("last_dir_also_listed_earlier", 8)
 	c.Floor("auto_mode_last_dir_missing", 5)
 }
@@ -143,10 +144,18 @@ func c16Case(cs *Case, auto bool) {
 			id = id[:200]
 		}
 	}
+	genKind := r.Intn(4)
+	if chance(r, 8) {
+		// file names up to the file system's limit of 255 bytes are names like any other
+		genKind = 1 + 2*r.Intn(2)
+		target := []int{236, 245, 250, 255}[r.Intn(4)]
+		id = strings.Repeat("n", target-5-len(vendor)-len(class)-2)
+		c.Count("names_of_236_to_255_bytes", 1)
+	}
 	var name, gen string
 	var gerr error
 	pv, st := guard(func() {
-		switch r.Intn(4) {
+		switch genKind {
 		case 0:
 			gen, name = "GenerateSpecName", cdi.GenerateSpecName(vendor, class)
 		case 1:
@@ -353,7 +362,11 @@ func c16Case(cs *Case, auto bool) {
 		cs.Violation("remove-missing-fails", nil, fmt.Sprintf("RemoveSpec(%q) of a name that does not exist fails: %v", wname, err), wit)
 		return
 	}
-	if err := cache.RemoveSpec("never-written-" + wname); err != nil {
+	never := "never-written-" + wname
+	if len(never) > 245 {
+		never = "nw-" + wname[14:] // stay within the file system's name limit (ENAMETOOLONG is not the library's doing)
+	}
+	if err := cache.RemoveSpec(never); err != nil {
 		cs.Violation("remove-missing-fails", nil, fmt.Sprintf("RemoveSpec of a name that never existed fails: %v", err), wit)
 		return
 	}
